@@ -10,6 +10,7 @@ import concurrent.futures
 import multiprocessing
 import os
 import pickle
+import shutil
 import uuid
 
 import dask
@@ -125,7 +126,7 @@ def build_table(spec, root):
 
 
 def fresh_dir(ctx_scratch, label):
-    path = os.path.join(ctx_scratch, f'c02-{label}-{uuid.uuid4().hex[:8]}')
+    path = os.path.join(ctx_scratch, f'c02-{label}-{os.getpid()}-{uuid.uuid4().hex}')
     os.makedirs(path)
     return path
 
@@ -134,7 +135,7 @@ _POOL = None
 
 
 def process_log():
-    return os.path.join(os.environ.get('VERIF_SCRATCH', '/tmp'), 'c02-processes-calls.log')
+    return os.path.join(os.environ.get('VERIF_SCRATCH', '/tmp'), f'c02-processes-calls-{os.getpid()}.log')
 
 
 def process_pool():
@@ -146,6 +147,19 @@ def process_pool():
         list(_POOL.map(abs, range(4)))  # start the workers now, while the environment is right
         atexit.register(_POOL.shutdown, wait=False, cancel_futures=True)
     return _POOL
+
+
+def cleanup():
+    """Stop the spawn pool of this process (called at the end of a shard, which exits without atexit handlers)."""
+    global _POOL
+    if _POOL is not None:
+        pool, _POOL = _POOL, None
+        procs = list((getattr(pool, '_processes', None) or {}).values())
+        pool.shutdown(wait=False, cancel_futures=True)
+        for proc in procs:  # do not depend on the workers noticing the shutdown
+            proc.terminate()
+        for proc in procs:
+            proc.join(5)
 
 
 def run_backend(backend, symbols, root):
@@ -233,6 +247,7 @@ def check_table(ctx, spec, backends, label):
                 ctx.fail_exc(spec, f'{backend}-raises', exc, tags)
             finally:
                 hygiene.release_graph()
+                shutil.rmtree(root, ignore_errors=True)
         ref = 'reference-entry' if 'reference-entry' in observed else 'reference'
         for backend, (calls, value, store) in observed.items():
             if backend.startswith('reference'):
